@@ -8,6 +8,7 @@
 (* name is kept in a TLC register for the report.                                                     *)
 EXTENDS Rot, Json, IOUtils
 Traces == ndJsonDeserialize(IOEnv.TRACE_FILE)
+FileDevices == ndJsonDeserialize(IOEnv.C03_DEVICES)          \* Devices <- FileDevices (RotTrace.cfg)
 NT == Len(Traces)
 VARIABLES tid, l, lastSha
 tvars == <<vars, tid, l, lastSha>>
@@ -23,6 +24,15 @@ WhyCompute == IF ~Legal(E.c) THEN "legal"
               ELSE IF E.got.k # "val" THEN "returned"
               ELSE IF ~ValueOK(E.c, E.got.v, E.want, E.fieldLen) THEN "value" ELSE "ok"
 TCompute == Is("Compute") /\ WhyCompute = "ok" /\ Compute(E.c) /\ Keep /\ Adv
+\* an entry point that was given a device: the case must carry the RoT type THE TABLE gives for the requested revision ("device": the
+\* harness chose another type - never a finding), the value must be the documented construction of that type
+WhyComputeFor == IF ~HasDev(E.fam, E.rev) THEN "legal"
+                 ELSE IF E.c.rot # RotOf(E.fam, E.rev) THEN "device"
+                 ELSE IF ~LegalFor(E.fam, E.rev, E.c) THEN "legal"
+                 ELSE IF E.term # DocCase(E.c) THEN "term"
+                 ELSE IF E.got.k # "val" THEN "returned"
+                 ELSE IF ~ValueOK(E.c, E.got.v, E.want, E.fieldLen) THEN "value" ELSE "ok"
+TComputeFor == Is("ComputeFor") /\ WhyComputeFor = "ok" /\ ComputeFor(E.fam, E.rev, E.c) /\ Keep /\ Adv
 TWriteFile == Is("WriteFile") /\ WriteFile(E.f, E.k, E.enc) /\ Keep /\ Adv
 FC == FileCase(E.rot, E.files, E.path, E.used)
 WhyRead == IF ~(\A i \in 1..Len(E.files) : E.files[i] \in Files /\ fs[E.files[i]].has) THEN "legal"
@@ -86,13 +96,13 @@ TParse1 == Is("Parse1") /\ WhyParse1 = "ok" /\ Parse1 /\ Keep /\ Adv
 TSetImageLength == Is("SetImageLength") /\ SetImageLength(E.img) /\ Keep /\ Adv
 
 Why == IF l > Len(T) THEN "end"
-       ELSE CASE E.a = "Compute" -> WhyCompute [] E.a = "ReadByPath" -> WhyRead
+       ELSE CASE E.a = "Compute" -> WhyCompute [] E.a = "ComputeFor" -> WhyComputeFor [] E.a = "ReadByPath" -> WhyRead
               [] E.a = "Build21" -> WhyBuild21 [] E.a = "Export21" -> WhyExport21 [] E.a = "Parse21" -> WhyParse21
               [] E.a = "Build1" -> WhyBuild1 [] E.a = "Export1" -> WhyExport1 [] E.a = "Parse1" -> WhyParse1
               [] E.a \in {"WriteFile", "SetUserData", "SetConstraints", "SetImageLength"} -> "args"
               [] OTHER -> "no-such-action"
 TInit == /\ tid \in 1..NT /\ l = 1 /\ lastSha = "" /\ Init /\ TLCSet(tid, 1) /\ TLCSet(NT + tid, "start")
-TNext == \/ TCompute \/ TWriteFile \/ TRead
+TNext == \/ TCompute \/ TComputeFor \/ TWriteFile \/ TRead
          \/ TBuild21 \/ TExport21 \/ TParse21 \/ TSetUserData \/ TSetConstraints
          \/ TBuild1 \/ TExport1 \/ TParse1 \/ TSetImageLength
 Constr == (IF TLCGet(tid) <= l THEN TLCSet(tid, l) /\ TLCSet(NT + tid, Why) ELSE TRUE)
